@@ -71,6 +71,7 @@ type State struct {
 	Crashed   bool
 	OpLog     []string
 	StdinData string
+	StdinPos  int
 	StdinPipe bool
 	Visible   bool
 	Version   map[string]uint64
@@ -203,11 +204,11 @@ func (f *File) Name() string { return f.name }
 
 func (f *File) Read(p []byte) (int, error) {
 	if f.stdin {
-		if f.pos >= len(S.StdinData) {
+		if S.StdinPos >= len(S.StdinData) {
 			return 0, io.EOF
 		}
-		n := copy(p, S.StdinData[f.pos:])
-		f.pos += n
+		n := copy(p, S.StdinData[S.StdinPos:])
+		S.StdinPos += n
 		return n, nil
 	}
 	visible("fsread", f.name)
